@@ -23,12 +23,15 @@ def sh(cmd, cwd=None, env=None, timeout=3600):
 def main():
     a = sys.argv[1:]
     demo_args = ""
+    demo_env = {}
     tier = "quick"
     pos = []
     i = 0
     while i < len(a):
         if a[i] == "--demo-args":
             demo_args = a[i + 1]; i += 1
+        elif a[i] == "--demo-env":
+            k, v = a[i + 1].split("=", 1); demo_env[k] = v; i += 1
         elif a[i] == "--tier":
             tier = a[i + 1]; i += 1
         else:
@@ -62,11 +65,12 @@ def main():
             tool = "+nightly"
             dargs = dargs.replace("+nightly", "").strip()
         cmd = "cargo %s test --offline --test seed_demo %s 2>&1 | tail -25" % (tool, dargs)
-        rc, out = sh(cmd, cwd=wt, env=e)
+        ed = dict(e); ed.update(demo_env)
+        rc, out = sh(cmd, cwd=wt, env=ed)
         res["demo_with_change"] = "fails" if ("FAILED" in out or "panicked" in out or "error: test failed" in out) else ("passes" if "test result: ok" in out else "unclear")
         res["demo_output_with"] = out[-1200:]
         sh("git checkout -- src", cwd=wt)
-        rc, out = sh(cmd, cwd=wt, env=e)
+        rc, out = sh(cmd, cwd=wt, env=ed)
         res["demo_without_change"] = "passes" if ("test result: ok" in out and "FAILED" not in out) else "fails"
         if res["demo_without_change"] != "passes":
             res["demo_output_without"] = out[-1200:]
